@@ -30,7 +30,7 @@ def commentsAbove (rev : List Txt) : List Txt := rev.takeWhile (hasPrefix "//")
 def funcDecls : List Txt → List Txt → List (Txt × List Txt)
   | [], _ => []
   | l :: ls, rev =>
-    match stripPrefix "func ".toList l with
+    match stripPrefix ['f', 'u', 'n', 'c', ' '] l with
     | some r =>
       (r.takeWhile (fun c => c != '('), ((commentsAbove rev).filter (hasPrefix "//go:")).reverse) ::
         funcDecls ls (l :: rev)
@@ -40,7 +40,7 @@ def acceptStubs (cfg : Config) (f : File) (out : Txt) : String :=
   let ls := splitNL out
   if ls.getLast? != some [] then "bad-no-final-newline" else
   let ls := ls.dropLast
-  let pk := ls.filterMap (stripPrefix "package ".toList)
+  let pk := ls.filterMap (stripPrefix ['p', 'a', 'c', 'k', 'a', 'g', 'e', ' '])
   if pk != [cfg.pkg] then "bad-package" else
   if headerConstraints ls != f.constraints then "bad-constraints" else
   let ds := funcDecls ls []
